@@ -211,14 +211,29 @@ func scanOccurrences(path string, content []byte, isRoot bool) (occ []occurrence
 	}
 }
 
+// lineOf returns the 1-based line number of an offset and the text of that line. The line-break
+// convention of the file is the one of its first line break: LF (also for CRLF) or CR.
 func lineOf(content []byte, off int) (line int, text string) {
 	if off > len(content) {
 		off = len(content)
 	}
+	nl := byte('\n')
+	for i, c := range content {
+		if c == '\n' {
+			break
+		}
+		if c == '\r' {
+			if i+1 < len(content) && content[i+1] == '\n' {
+				break
+			}
+			nl = '\r'
+			break
+		}
+	}
 	line = 1
 	start := 0
 	for i := 0; i < off; i++ {
-		if content[i] == '\n' {
+		if content[i] == nl {
 			line++
 			start = i + 1
 		}
@@ -525,6 +540,9 @@ func traceChainError(p *Project, trace string) string {
 	for i := 1; i < len(ee); i++ {
 		content := p.content(abs(ee[i].file))
 		lines := strings.Split(string(content), "\n")
+		if !strings.Contains(string(content), "\n") && strings.Contains(string(content), "\r") {
+			lines = strings.Split(string(content), "\r") // CR-only file
+		}
 		if ee[i].line < 1 || ee[i].line > len(lines) {
 			return fmt.Sprintf("%s has no line %d", ee[i].file, ee[i].line)
 		}
